@@ -218,3 +218,46 @@ Proof.
     + destruct Hrole as [Hr|Hr]; [rewrite Frole in Hr; discriminate|]. rewrite Froll in Hr.
       destruct (strategy_unknown_shape _ _ _ Hs) as [_ [_ [_ [_ [_ Hn]]]]]. contradiction.
 Qed.
+
+(** ** at rest *)
+Lemma count_if_all : forall {A} (f : A -> bool) l, (forall x, In x l -> f x = true) -> count_if f l = zlen l.
+Proof.
+  intros A f l; induction l as [|x r IH]; intro H; [reflexivity|].
+  rewrite count_if_cons, (H x (or_introl eq_refl)), IH by (intros y Hy; apply H; right; exact Hy).
+  unfold zlen; cbn [length]. lia.
+Qed.
+
+(** at rest - every planning item holds a Ready pod of the live template - the counters of the active role are the
+    number of targeted nodes, four times, and no node is ignored *)
+Theorem counters_at_rest : forall rs ann ru now items rp,
+  rolling_plan_of rs ann ru now items = Ok rp ->
+  (forall i, In i items -> classify rs now i = UpToDate true) ->
+  rolling_status_counts rp = (zlen items, zlen items, zlen items, zlen items, 0).
+Proof.
+  intros rs ann ru now items rp H Hall. unfold rolling_status_counts. rewrite (plan_counts _ _ _ _ _ _ H).
+  unfold count_items. cbn [k_nodes k_created k_ready k_available k_unresponsive].
+  rewrite (count_if_all (is_class c_uptodate rs now)), (count_if_all (is_class c_ready rs now)),
+          (count_if_zero (is_class c_unresp rs now));
+    try (intros i Hi; unfold is_class; rewrite (Hall i Hi); reflexivity).
+  reflexivity.
+Qed.
+
+(** ... and so is the status the sync writes (when the strategy resolves, i.e. there is a rolling plan): desired = current = ready = available = the targeted nodes *)
+Theorem active_status_at_rest : forall sn ch pl st e freq cx,
+  ers_sync sn ch = Ok pl -> sn_eds sn = Some e -> is_defaulted e = true ->
+  st_freq (e_strategy e) = Some freq -> sync_gate sn freq = None -> build_ctx sn e freq = Ok cx ->
+  cx_role cx = RoleActive -> pl_rolling pl <> None -> pl_status pl = Some st ->
+  (forall i, In i (planning_items cx) -> classify (sn_rs sn) (sn_now sn) i = UpToDate true) ->
+  rs_desired st = zlen (planning_items cx) /\ rs_current st = zlen (planning_items cx) /\
+  rs_ready st = zlen (planning_items cx) /\ rs_available st = zlen (planning_items cx) /\ rs_ignored st = 0.
+Proof.
+  intros sn ch pl st e freq cx H He Hd Hf Hg Hc Hr Hroll Hst Hall.
+  destruct (ers_sync_full _ _ _ _ _ _ H He Hd Hf Hg Hc) as [so [Hs Hfin]].
+  destruct (finish_sync_counters _ _ _ _ Hfin) as [st1 [cs [Hs1 Heq]]].
+  rewrite Hs1 in Hst. injection Hst as <-. subst st1.
+  unfold strategy_of in Hs. rewrite Hr in Hs. unfold strategy_active in Hs.
+  destruct (rolling_plan_of _ _ _ _ _) as [rp|c|c] eqn:Ep; try discriminate.
+  - pose proof (counters_at_rest _ _ _ _ _ _ Ep Hall) as Hk. rewrite Hk in Hs.
+    injection Hs as <-. cbn [so_status with_conds rs_desired rs_current rs_ready rs_available rs_ignored]. auto.
+  - injection Hs as <-. destruct (finish_sync_fields _ _ _ _ Hfin) as [_ [Fr _]]. cbn [so_rolling] in Fr. contradiction.
+Qed.
